@@ -16,6 +16,8 @@ pub use config::*;
 
 mod pp;
 use pp::{preprocess, PpResult};
+#[cfg(pistonite_txtpp_verif)]
+pub use pp::{Directive, DirectiveType};
 mod resolve_inputs;
 use resolve_inputs::resolve_inputs;
 mod scan_dir;
